@@ -58,6 +58,24 @@ def args_of(repo: Repo, f: Func, call: ast.Call, params: t.Optional[t.List[str]]
     return out
 
 
+def concat_parts(e: t.Optional[ast.AST]) -> t.List[ast.expr]:
+    """The operands of a byte concatenation in order: b"".join([a, b, c]) / b"".join((a, b)) / a + b + c / bytes(x)."""
+    if e is None:
+        return []
+    if isinstance(e, ast.Call) and isinstance(e.func, ast.Attribute) and e.func.attr == "join" and isinstance(e.func.value, ast.Constant) and e.func.value.value == b"" and len(e.args) == 1 and isinstance(e.args[0], (ast.List, ast.Tuple)) and not any(isinstance(x, ast.Starred) for x in e.args[0].elts):
+        out: t.List[ast.expr] = []
+        for x in e.args[0].elts:
+            out += concat_parts(x)
+        return out
+    if isinstance(e, ast.BinOp) and isinstance(e.op, ast.Add):
+        return concat_parts(e.left) + concat_parts(e.right)
+    if isinstance(e, ast.Call) and isinstance(e.func, ast.Name) and e.func.id in ("bytes", "bytearray") and len(e.args) == 1 and not e.keywords and isinstance(e.args[0], (ast.BinOp, ast.Call)):
+        inner = concat_parts(e.args[0])
+        if len(inner) > 1:
+            return inner
+    return [t.cast(ast.expr, e)]
+
+
 def call_name(call: ast.Call) -> str:
     return unparse(call.func)
 
